@@ -158,10 +158,10 @@ static void gw_fmt_prog(char *buf, size_t n, const int *prog, int len) {
 
 /* Report a mismatch: writes a replay file, prints one MISMATCH line. */
 static void gw_mismatch(const int *prog, int n, int step, const char *sig, const char *fmt, ...) {
-    gw_mismatches++;
-    if ((int)gw_mismatches > gw_max_reports) return;
+    uint64_t nth = __atomic_add_fetch(&gw_mismatches, 1, __ATOMIC_SEQ_CST);
+    if ((int)nth > gw_max_reports) return;
     char path[512];
-    snprintf(path, sizeof path, "%s/%s.%s.%llu.replay", gw_replay_dir, gw_tag, sig, (unsigned long long)gw_mismatches);
+    snprintf(path, sizeof path, "%s/%s.%s.%llu.replay", gw_replay_dir, gw_tag, sig, (unsigned long long)nth);
     for (char *c = path + strlen(gw_replay_dir) + 1; *c; c++)
         if (!(*c == '.' || *c == '-' || *c == '_' || (*c >= '0' && *c <= '9') || (*c >= 'A' && *c <= 'Z') || (*c >= 'a' && *c <= 'z'))) *c = '_';
     FILE *f = fopen(path, "w");
